@@ -2073,6 +2073,18 @@ package gomatrixserverlib
 //@   calls Allowed@root against-the-returned-state-only: forall t string, s string :: tuple(t, s) in authEvents.(*AuthEvents).events ==> (exists i int :: 0 <= i && i < len(ret(CheckStateResponse, 1)) && ret(CheckStateResponse, 1)[i] == get(authEvents.(*AuthEvents).events, tuple(t, s)))
 //@   loop 3: invariant 0 <= idx(3) && idx(3) <= len(stateEventsJSON) && authEventProvider != nil && authEventProvider.events != nil && authEventProvider.roomIDs != nil && (forall t string, s string :: tuple(t, s) in authEventProvider.events ==> (exists i int :: 0 <= i && i < len(stateEvents) && stateEvents[i] == get(authEventProvider.events, tuple(t, s))))
 
+// Linearising a /state response: the events of both lists are merged BY EVENT ID before they are sorted, so the
+// sorter never sees an event twice however often (and in whichever list) the response names it
+//@ func LineariseStateResponse
+//@   property C11, C14
+//@   nosafety
+//@   calls ReverseTopologicalOrdering@root every-event-once-by-auth-events: order == 2 && (forall a int, b int :: 0 <= a && a < b && b < len(input) ==> input[a].EventID() != input[b].EventID())
+//@   loop 1: invariant eventsByID != nil && (forall id string :: id in eventsByID ==> get(eventsByID, id).EventID() == id)
+//@   loop 2: invariant eventsByID != nil && (forall id string :: id in eventsByID ==> get(eventsByID, id).EventID() == id)
+//@   loop 3: invariant forall id string :: id in eventsByID ==> get(eventsByID, id).EventID() == id
+//@   loop 3: invariant forall j int :: 0 <= j && j < len(allEvents) ==> (seen(3)[allEvents[j].EventID()] && allEvents[j].EventID() in eventsByID)
+//@   loop 3: invariant forall a int, b int :: 0 <= a && a < b && b < len(allEvents) ==> allEvents[a].EventID() != allEvents[b].EventID()
+
 //@ func VerifyEventAuthChain
 //@   property C14
 //@   nosafety
@@ -2292,7 +2304,7 @@ package gomatrixserverlib
 //@   assigns nothing
 
 //@ func (*EventBuilder).Build
-//@   property C03
+//@   property C03, C17
 //@   nosafety
 //@   requires eb != nil
 //@   ensures unknown-version-is-an-error: old(eb.version) == nil ==> err != nil
